@@ -9,4 +9,9 @@ def run_ref_mc(ctx, thorough_cfg='mc/MC_Ref_thorough.cfg', quick_cfg='mc/MC_Ref_
     if not r['ok']:
         ctx.report(f"reference layer violates {r['violated']} (specification error, not a verdict on the code)",
                    {'kind': 'spec', 'violated': ','.join(r['violated'])}, {'tlc_output_tail': r['out'][-4000:]})
+    r2 = ctx.mc('mc/MC_Codegen.tla', 'mc/MC_Codegen_quick.cfg' if ctx.quick else 'mc/MC_Codegen_thorough.cfg',
+                'CodegenModel (the code\'s bitmask filters, sign functions, output keys, involution / hodge / polarity rules) refines MultivectorRef on all basis-blade pairs')
+    if not r2['ok']:
+        ctx.report(f"CodegenModel violates {r2['violated']} (specification error, not a verdict on the code)",
+                   {'kind': 'spec', 'violated': ','.join(r2['violated'])}, {'tlc_output_tail': r2['out'][-4000:]})
     return r
